@@ -154,7 +154,16 @@ def run(lines, out, args):
             defaults = tuple(VALUE_KINDS[vals[i]][1]() if i < len(vals) and vals[i] != "D" else Dflt(ids[i]) for i in range(ndef))
             # the function is described once BEFORE it gets its final defaults and attributes (a description must not
             # be remembered per function) ...
-            fn = types.FunctionType(code, {}, "f", tuple(Dflt(5000 + i) for i in range(ndef)) or None)
+            # -- with ANOTHER NUMBER of defaults (what is required is a matter of how many there are now), and for every other
+            # function with another code object altogether (`f.__code__ = ...`: other names, other * / ** parameters)
+            npre = (ndef + 1 + first) % (code.co_argcount + 1)
+            if npre == ndef:
+                npre = (ndef + 1) % (code.co_argcount + 1)
+            code0 = code
+            if first % 2:
+                code0 = build(pos, posonly, 1 - va, kwonly, 1 - kw, 2 - nlocals if nlocals in (0, 2) else 0, with_self)
+                npre = min(npre, code0.co_argcount)
+            fn = types.FunctionType(code0, {}, "f", tuple(Dflt(5000 + i) for i in range(npre)) or None)
             try:
                 if kind in "MS":
                     fromMethod(type("C0", (), {"f": fn})().f)
@@ -162,6 +171,9 @@ def run(lines, out, args):
                     fromFunction(fn)
             except Exception:  # noqa
                 pass
+            if code0 is not code:
+                fn.__defaults__ = None
+                fn.__code__ = code
             fn.__defaults__ = defaults or None
             if kwd != "-":
                 kd = {"k%d" % i: Dflt(900 + i) for i, c in enumerate(kwd) if c == "1"}
